@@ -1084,6 +1084,228 @@ Lemma current_witnesses :
   impl_shr Signed 8 (-1) 8 = Ok (-1) /\ impl_shr Unsigned 8 200 8 = Ok 0 /\ impl_shr Signed 32 (-8) (-1) = Ok 0.
 Proof. vm_compute. repeat split; reflexivity. Qed.
 
+(* ================================================================== comparisons with a decimal operand *)
+Lemma maxprec_maxp : forall kd, maxprec kd = maxp kd.
+Proof. intros kd. destruct kd; reflexivity. Qed.
+
+Lemma spec_dec_cmp_cross : forall s1 v1 s2 v2, 0 <= s1 -> 0 <= s2 ->
+  spec_dec_cmp s1 v1 s2 v2 = (v1 * 10 ^ s2 ?= v2 * 10 ^ s1).
+Proof.
+  intros s1 v1 s2 v2 H1 H2. unfold spec_dec_cmp. set (S := Z.max s1 s2).
+  assert (Hm : 0 <= s1 + s2 - S) by (unfold S; lia).
+  pose proof (pow10_pos (s1 + s2 - S) Hm) as Hp.
+  rewrite (Zmult_compare_compat_r (v1 * 10 ^ (S - s1)) (v2 * 10 ^ (S - s2)) (10 ^ (s1 + s2 - S)) ltac:(lia)).
+  rewrite <- !Z.mul_assoc, <- !Z.pow_add_r by (unfold S; lia).
+  replace (S - s1 + (s1 + s2 - S)) with s2 by lia. replace (S - s2 + (s1 + s2 - S)) with s1 by lia. reflexivity.
+Qed.
+
+Lemma dec_bind_meta_scale : forall m kd p1 s1 p2 s2 np ns,
+  dec_bind_meta m kd p1 s1 p2 s2 = Ok (np, ns) -> ns = Z.max s1 s2.
+Proof.
+  intros m kd p1 s1 p2 s2 np ns H. unfold dec_bind_meta in H.
+  destruct ((p1 =? p2) && (s1 =? s2)) eqn:E.
+  - inversion H. lia.
+  - destruct (arith_result Native m Signed 8 (p1 - s1)); cbn [bind_out] in H; try discriminate.
+    destruct (arith_result Native m Signed 8 (p2 - s2)); cbn [bind_out] in H; try discriminate.
+    destruct (arith_result Native m Signed 8 (Z.max a a0 + Z.max s1 s2)); cbn [bind_out] in H; try discriminate.
+    inversion H. reflexivity.
+Qed.
+
+Lemma round_val_up_inv : forall kd np diff x y, diff <= 0 ->
+  round_val kd np diff (10 ^ Z.abs diff) x = Ok y -> y = x * 10 ^ (- diff).
+Proof.
+  intros kd np diff x y Hd H. unfold round_val in H. destruct (diff <? 0) eqn:E.
+  - unfold checked in H. destruct (in_range Signed (prim_bits kd) (x * 10 ^ Z.abs diff)); cbn [bind_out] in H; [|discriminate].
+    destruct (vprec (x * 10 ^ Z.abs diff) np); inversion H. rewrite Z.abs_neq by lia. reflexivity.
+  - replace (0 <? diff) with false in H by lia. cbn [bind_out] in H.
+    destruct (vprec x np); inversion H. assert (diff = 0) by lia. subst diff. cbn. lia.
+Qed.
+
+Lemma cast_side_inv : forall kd p s np ns x y, s <= ns ->
+  cast_side kd p s np ns (Some x) = Ok (Some y) -> y = x * 10 ^ (ns - s).
+Proof.
+  intros kd p s np ns x y Hs H. unfold cast_side in H. destruct ((p =? np) && (s =? ns)) eqn:E.
+  - inversion H. assert (s = ns) by lia. subst ns. rewrite Z.sub_diag. cbn. lia.
+  - destruct (in_range Signed 8 (s - ns)); cbn [bind_out] in H; [|discriminate].
+    unfold checked in H. destruct (in_range Signed (prim_bits kd) (10 ^ Z.abs (s - ns))); cbn [bind_out] in H; [|discriminate].
+    destruct (round_val kd np (s - ns) (10 ^ Z.abs (s - ns)) x) as [z| |] eqn:Er; cbn [bind_out] in H; try discriminate.
+    inversion H. subst z. apply round_val_up_inv in Er; [|lia]. rewrite Er. f_equal. f_equal. lia.
+Qed.
+
+(* never a wrong answer: whatever the common type, whenever a truth value comes back it is the order of the rationals *)
+Lemma dec_cmp_sound : forall m kd p1 s1 v1 p2 s2 v2 c,
+  dec_cmp_core m kd p1 s1 (Some v1) p2 s2 (Some v2) = Ok (Some c) -> c = spec_dec_cmp s1 v1 s2 v2.
+Proof.
+  intros m kd p1 s1 v1 p2 s2 v2 c H. unfold dec_cmp_core in H.
+  destruct (dec_bind_meta m kd p1 s1 p2 s2) as [[np ns]| |] eqn:Em; cbn [bind_out] in H; try discriminate.
+  apply dec_bind_meta_scale in Em.
+  destruct (cast_side kd p1 s1 np ns (Some v1)) as [a| |] eqn:E1; cbn [bind_out] in H; try discriminate.
+  destruct (cast_side kd p2 s2 np ns (Some v2)) as [b| |] eqn:E2; cbn [bind_out] in H; try discriminate.
+  destruct a as [x|]; [|inversion H]. destruct b as [y|]; [|inversion H]. inversion H.
+  apply cast_side_inv in E1; [|lia]. apply cast_side_inv in E2; [|lia]. subst x y ns. reflexivity.
+Qed.
+
+Lemma dec_cmp_null : forall m kd p1 s1 v1 p2 s2 v2 c,
+  dec_cmp_core m kd p1 s1 v1 p2 s2 v2 = Ok c -> (v1 = None \/ v2 = None) -> c = None.
+Proof.
+  intros m kd p1 s1 v1 p2 s2 v2 c H Hn. unfold dec_cmp_core in H.
+  destruct (dec_bind_meta m kd p1 s1 p2 s2) as [[np ns]| |]; cbn [bind_out] in H; try discriminate.
+  destruct (cast_side kd p1 s1 np ns v1) as [a| |] eqn:E1; cbn [bind_out] in H; try discriminate.
+  destruct (cast_side kd p2 s2 np ns v2) as [b| |] eqn:E2; cbn [bind_out] in H; try discriminate.
+  inversion H.
+  assert (Hnone : forall p s, forall o, cast_side kd p s np ns None = Ok o -> o = None).
+  { intros p s o Ho. unfold cast_side in Ho. destruct ((p =? np) && (s =? ns)); [inversion Ho; reflexivity|].
+    destruct (in_range Signed 8 (s - ns)); cbn [bind_out] in Ho; [|discriminate].
+    destruct (checked kd (10 ^ Z.abs (s - ns))); cbn [bind_out] in Ho; try discriminate. inversion Ho. reflexivity. }
+  destruct Hn as [Hn|Hn]; subst.
+  - apply Hnone in E1. subst a. reflexivity.
+  - apply Hnone in E2. subst b. destruct a; reflexivity.
+Qed.
+
+(* one side, under the hypotheses of the completeness theorem *)
+Lemma cast_side_ok : forall kd p s np ns v, 1 <= p -> p <= np <= maxp kd -> s <= ns -> p + (ns - s) <= np ->
+  Z.abs v < 10 ^ p -> cast_side kd p s np ns (Some v) = Ok (Some (v * 10 ^ (ns - s))).
+Proof.
+  intros kd p s np ns v Hp Hnp Hs Hfit Hv. unfold cast_side. destruct ((p =? np) && (s =? ns)) eqn:E.
+  - assert (s = ns) by lia. subst ns. rewrite Z.sub_diag. cbn [Z.pow Z.pow_pos Pos.iter]. rewrite Z.mul_1_r. reflexivity.
+  - assert (Hm : maxp kd <= 38) by (destruct kd; cbn; lia).
+    replace (in_range Signed 8 (s - ns)) with true by (symmetry; apply signed_range; cbn; lia). cbn [bind_out].
+    rewrite Z.abs_neq by lia. replace (- (s - ns)) with (ns - s) by lia.
+    pose proof (pow10_le_max kd (ns - s) ltac:(lia)) as Ha. pose proof (pow10_le_max kd np ltac:(lia)) as Hn10.
+    destruct (prim_room kd) as [Hhi Hlo]. assert (H0 : 0 <= 10 ^ maxp kd / 2) by (apply Z.div_pos; lia).
+    unfold checked. replace (in_range Signed (prim_bits kd) (10 ^ (ns - s))) with true by (symmetry; apply in_range_iff; lia).
+    cbn [bind_out].
+    assert (Hb : Z.abs (v * 10 ^ (ns - s)) < 10 ^ np).
+    { rewrite Z.abs_mul, (Z.abs_eq (10 ^ (ns - s))) by lia.
+      apply Z.lt_le_trans with (10 ^ p * 10 ^ (ns - s)); [apply Z.mul_lt_mono_pos_r; lia|].
+      rewrite <- Z.pow_add_r by lia. apply Z.pow_le_mono_r; lia. }
+    unfold round_val. destruct (s - ns <? 0) eqn:Ed.
+    + unfold checked. replace (in_range Signed (prim_bits kd) (v * 10 ^ (ns - s))) with true by (symmetry; apply in_range_iff; lia).
+      cbn [bind_out]. rewrite vprec_ok by lia. reflexivity.
+    + replace (0 <? s - ns) with false by lia. cbn [bind_out]. assert (s = ns) by lia. subst ns.
+      rewrite Z.sub_diag in *. cbn [Z.pow Z.pow_pos Pos.iter] in *. rewrite Z.mul_1_r in *.
+      rewrite vprec_ok by lia. reflexivity.
+Qed.
+
+(* full statement (refuted: dec_cmp_refuted -- the common precision is clamped at MAX_PRECISION and the rescaled value
+   does not fit: an error although the comparison is defined):
+     forall m kd p1 s1 v1 p2 s2 v2, 1 <= p1 <= maxprec kd -> 1 <= p2 <= maxprec kd -> -128 <= s1 <= p1 -> -128 <= s2 <= p2 ->
+       Z.abs v1 < 10 ^ p1 -> Z.abs v2 < 10 ^ p2 ->
+       dec_cmp_core m kd p1 s1 (Some v1) p2 s2 (Some v2) = Ok (Some (spec_dec_cmp s1 v1 s2 v2)) *)
+Lemma dec_cmp_correct_partial : forall m kd p1 s1 v1 p2 s2 v2,
+  1 <= p1 <= maxprec kd -> 1 <= p2 <= maxprec kd -> -64 <= s1 <= p1 -> -64 <= s2 <= p2 ->
+  Z.max (p1 - s1) (p2 - s2) + Z.max s1 s2 <= maxprec kd ->
+  Z.abs v1 < 10 ^ p1 -> Z.abs v2 < 10 ^ p2 ->
+  dec_cmp_core m kd p1 s1 (Some v1) p2 s2 (Some v2) = Ok (Some (spec_dec_cmp s1 v1 s2 v2)).
+Proof.
+  intros m kd p1 s1 v1 p2 s2 v2 Hp1 Hp2 Hs1 Hs2 Hn Hv1 Hv2. rewrite maxprec_maxp in *.
+  assert (Hm : maxp kd <= 38) by (destruct kd; cbn; lia).
+  set (N := Z.max (p1 - s1) (p2 - s2) + Z.max s1 s2) in *. set (S := Z.max s1 s2) in *.
+  assert (Hmeta : exists np, dec_bind_meta m kd p1 s1 p2 s2 = Ok (np, S) /\ p1 <= np <= maxp kd /\ p2 <= np /\
+                             p1 + (S - s1) <= np /\ p2 + (S - s2) <= np).
+  { unfold dec_bind_meta. destruct ((p1 =? p2) && (s1 =? s2)) eqn:E.
+    - exists p1. assert (p1 = p2 /\ s1 = s2) as [-> ->] by lia. unfold S. rewrite Z.max_id.
+      repeat split; try reflexivity; lia.
+    - exists N.
+      rewrite (arith_result_exact Native m Signed 8 (p1 - s1)); [|lia|apply signed_range; cbn; unfold N, S in *; lia].
+      rewrite (arith_result_exact Native m Signed 8 (p2 - s2)); [|lia|apply signed_range; cbn; unfold N, S in *; lia].
+      cbn [bind_out]. fold S. fold N.
+      rewrite (arith_result_exact Native m Signed 8 N); [|lia|apply signed_range; cbn; unfold N, S in *; lia].
+      cbn [bind_out]. rewrite Z.mod_small by (unfold N, S in *; lia). rewrite maxprec_maxp.
+      replace (maxp kd <? N) with false by lia.
+      repeat split; try reflexivity; unfold N, S in *; lia. }
+  destruct Hmeta as [np [Em [Hnp1 [Hnp2 [Hf1 Hf2]]]]].
+  unfold dec_cmp_core. rewrite Em. cbn [bind_out].
+  rewrite (cast_side_ok kd p1 s1 np S v1) by (unfold S; lia). cbn [bind_out].
+  rewrite (cast_side_ok kd p2 s2 np S v2) by (unfold S; lia). cbn [bind_out]. reflexivity.
+Qed.
+
+Lemma dec_cmp_refuted :
+  dec_cmp_core Debug D64 18 0 (Some 1) 18 18 (Some (5 * 10 ^ 17)) = Err /\ spec_dec_cmp 0 1 18 (5 * 10 ^ 17) = Gt /\
+  dec_cmp_core Debug D128 38 0 (Some 1) 38 38 (Some (5 * 10 ^ 37)) = Err /\
+  dec_cmp_core Debug D128 38 (-100) None 5 2 (Some 50) = Panic /\ dec_cmp_core Release D128 38 (-100) None 5 2 (Some 50) = Err /\
+  dec_cmp_core Debug D128 18 0 (Some 1) 19 18 (Some (5 * 10 ^ 17)) = Ok (Some Gt).
+Proof. vm_compute. repeat split; reflexivity. Qed.
+
+Lemma dec_cmp_examples :
+  dec_cmp_core Debug D64 10 2 (Some 150) 4 1 (Some 15) = Ok (Some Eq) /\
+  dec_cmp_core Debug D64 10 2 (Some 150) 10 2 (Some 15) = Ok (Some Gt) /\
+  dec_cmp_core Debug D64 10 2 (Some 15) 10 1 (Some 15) = Ok (Some Lt) /\
+  dec_cmp_core Debug D128 10 2 (Some (-150)) 20 1 (Some (-15)) = Ok (Some Eq) /\
+  dec_cmp_core Debug D64 10 (-2) (Some 1) 10 2 (Some 10000) = Ok (Some Eq) /\
+  dec_cmp_core Debug D64 10 2 None 4 1 (Some 15) = Ok None.
+Proof. vm_compute. repeat split; reflexivity. Qed.
+
+(* ---- mixed operands: every resolution that stays in decimals is exact *)
+Definition exact_path (l r : cop) : bool :=
+  match l, r with
+  | OpDec _ _ _ _, OpDec _ _ _ _ => true
+  | OpDec kd _ _ _, OpInt _ w _ | OpInt _ w _, OpDec kd _ _ _ => (w <=? 32) || match kd with D128 => true | D64 => false end
+  | _, _ => false
+  end.
+
+Lemma comparison_flip : forall a b c, (a ?= b) = c -> (b ?= a) = CompOpp c.
+Proof. intros a b c H. subst c. apply Z.compare_antisym. Qed.
+
+Lemma spec_dec_cmp_flip : forall s1 v1 s2 v2, spec_dec_cmp s2 v2 s1 v1 = CompOpp (spec_dec_cmp s1 v1 s2 v2).
+Proof. intros. unfold spec_dec_cmp. rewrite (Z.max_comm s2 s1). apply Z.compare_antisym. Qed.
+
+Lemma int_as_dec_inv : forall w x y, int_as_dec w x = Ok y -> y = x.
+Proof. intros w x y H. unfold int_as_dec in H. destruct x as [x|]; [destruct (vprec x (int_meta_prec w))|]; inversion H; reflexivity. Qed.
+
+Lemma cmp_mixed_sound : forall m l r c, exact_path l r = true ->
+  impl_cmp_mixed m l r = Ok (Some c) -> spec_cmp_mixed l r = Ok (Some c).
+Proof.
+  intros m l r c Hp H.
+  destruct l as [kd1 p1 s1 v1|sg1 w1 x1|b1]; destruct r as [kd2 p2 s2 v2|sg2 w2 x2|b2]; cbn [exact_path] in Hp; try discriminate.
+  - (* decimal ~ decimal *)
+    cbn [impl_cmp_mixed dec_vs] in H.
+    destruct v1 as [v1|]; [|apply dec_cmp_null in H; [discriminate|left; reflexivity]].
+    destruct v2 as [v2|]; [|apply dec_cmp_null in H; [discriminate|right; reflexivity]].
+    apply dec_cmp_sound in H. subst c. reflexivity.
+  - (* decimal ~ integer *)
+    cbn [impl_cmp_mixed dec_vs] in H.
+    assert (Hcore : bind_out (int_as_dec w2 x2) (fun y => dec_cmp_core m kd1 p1 s1 v1 (int_meta_prec w2) 0 y) = Ok (Some c)).
+    { destruct (w2 <=? 32); [exact H|]. destruct kd1; [discriminate|exact H]. }
+    destruct (int_as_dec w2 x2) as [y| |] eqn:Ei; cbn [bind_out] in Hcore; try discriminate.
+    apply int_as_dec_inv in Ei. subst y.
+    destruct v1 as [v1|]; [|apply dec_cmp_null in Hcore; [discriminate|left; reflexivity]].
+    destruct x2 as [x2|]; [|apply dec_cmp_null in Hcore; [discriminate|right; reflexivity]].
+    apply dec_cmp_sound in Hcore. subst c. reflexivity.
+  - (* integer ~ decimal *)
+    cbn [impl_cmp_mixed dec_vs] in H.
+    assert (Hcore : bind_out (int_as_dec w1 x1) (fun y => dec_cmp_core m kd2 (int_meta_prec w1) 0 y p2 s2 v2) = Ok (Some c)).
+    { destruct (w1 <=? 32); [exact H|]. destruct kd2; [discriminate|exact H]. }
+    destruct (int_as_dec w1 x1) as [y| |] eqn:Ei; cbn [bind_out] in Hcore; try discriminate.
+    apply int_as_dec_inv in Ei. subst y.
+    destruct x1 as [x1|]; [|apply dec_cmp_null in Hcore; [discriminate|left; reflexivity]].
+    destruct v2 as [v2|]; [|apply dec_cmp_null in Hcore; [discriminate|right; reflexivity]].
+    apply dec_cmp_sound in Hcore. subst c. reflexivity.
+Qed.
+
+(* Int64 against a Decimal64: both sides go through Float64 and integers beyond 2^53 that differ compare equal;
+   UInt64 of 20 digits against a Decimal128: the cast to decimal(19,0) fails *)
+Lemma cmp_mixed_refuted :
+  impl_cmp_mixed Debug (OpInt Signed 64 (Some 9007199254740993)) (OpDec D64 18 0 (Some 9007199254740992)) = Ok (Some Eq) /\
+  spec_cmp_mixed (OpInt Signed 64 (Some 9007199254740993)) (OpDec D64 18 0 (Some 9007199254740992)) = Ok (Some Gt) /\
+  impl_cmp_mixed Debug (OpDec D128 20 2 (Some 150)) (OpInt Unsigned 64 (Some 18446744073709551615)) = Err /\
+  spec_cmp_mixed (OpDec D128 20 2 (Some 150)) (OpInt Unsigned 64 (Some 18446744073709551615)) = Ok (Some Lt) /\
+  impl_cmp_mixed Debug (OpInt Unsigned 64 (Some 5)) (OpDec D64 10 2 (Some 500)) = Err.
+Proof. vm_compute. repeat split; reflexivity. Qed.
+
+Lemma cmp_results_spec : forall c,
+  cmp_results (Some c) false false =
+  map Some [match c with Lt => true | _ => false end; match c with Gt => false | _ => true end;
+            match c with Eq => true | _ => false end; match c with Eq => false | _ => true end;
+            match c with Lt => false | _ => true end; match c with Gt => true | _ => false end;
+            match c with Eq => false | _ => true end; match c with Eq => true | _ => false end].
+Proof. intros c. destruct c; reflexivity. Qed.
+
+Example dec_cmp_hyps_sat : 1 <= 10 <= maxprec D64 /\ 1 <= 4 <= maxprec D64 /\ -64 <= 2 <= 10 /\ -64 <= 1 <= 4 /\
+  Z.max (10 - 2) (4 - 1) + Z.max 2 1 <= maxprec D64 /\ Z.abs 150 < 10 ^ 10 /\ Z.abs 15 < 10 ^ 4 /\
+  exact_path (OpDec D64 10 2 (Some 150)) (OpInt Signed 32 (Some 2)) = true.
+Proof. vm_compute. repeat split; discriminate. Qed.
+
 (* ------------------------------------------------------------------ which variant the source has *)
 Definition style_of (k : Z) : style := if k =? 0 then Checked else Native.
 
